@@ -63,6 +63,8 @@ pub enum Op {
     Unobserve { obs: u8, var: Option<String> },
     Bind { name: String, safe: bool },
     Unbind { name: String },
+    /// set_allow_external_function_fallbacks
+    SetFallbacks(bool),
     SetHandler,
     Invalid(InvalidKind),
 }
@@ -91,6 +93,7 @@ impl Op {
             Op::Unobserve { obs, var } => format!("Unobserve({obs},{var:?})"),
             Op::Bind { name, safe } => format!("Bind({name},{safe})"),
             Op::Unbind { name } => format!("Unbind({name})"),
+            Op::SetFallbacks(v) => format!("SetFallbacks({v})"),
             Op::SetHandler => "SetHandler".into(),
             Op::Invalid(k) => format!("Invalid({k:?})"),
         }
